@@ -45,3 +45,10 @@ def ldt_minus_period(ldt, period, carry_days):
     got = ldt.minus(period)
     want_date = ldt.date.plus_years(-period.years).plus_months(-period.months).plus_weeks(-period.weeks).plus_days(carry_days - period.days)
     return (got.date._days_since_epoch, got.time_of_day.nanosecond_of_day, want_date._days_since_epoch)
+
+
+def between_date_times(start, end, units):
+    from pyoda_time import Period
+
+    p = Period.between(start, end, units)
+    return (p.years, p.months, p.weeks, p.days, p.hours, p.minutes, p.seconds, p.milliseconds, p.ticks, p.nanoseconds)
